@@ -8,7 +8,7 @@ PROPS["C02"] = dict(
     trivial=lambda c, o: not ("H" in o or "ok:" in o),
     out_kind=lambda o: (("broken:" + o.rsplit("broken=", 1)[1]) if not o.endswith("broken=-") else ("conn-ok" if "ok:" in o else "conn-no-answer")) if "| srv=" in o else ("map-full" if "full" in o else ("map-routed" if "H" in o else "map-other")),
     trusted=[
-        "Model/StreamMap.lean transcribes connection.rs:2296-2450 (HashMaps as association lists observed through get/erase/insert, orphan timestamps dropped); Model/Conn.lean transcribes connection.rs:136-223, 1541-1786 with each critical section of reader/writer/orphaner as one atomic step",
+        "Model/StreamMap.lean transcribes connection.rs:2309-2463 (HashMaps as association lists observed through get/erase/insert, orphan timestamps dropped); Model/Conn.lean transcribes connection.rs:136-223, 1541-1799 with each critical section of reader/writer/orphaner as one atomic step",
         "abstract server: answers only stream ids it has received, at most once each; tokio mpsc/oneshot: FIFO, close-on-drop; the bounded submit channel is modelled by the `submitFull`/`enqueue` events, the capacity-obtained-but-not-yet-pushed window of send() by `submitRace`/`push`",
         "end-to-end schedules are deterministic (current-thread runtime, futures polled by the test, settle = 16 yields); the driver Drive/C02.lean maps each schedule operation to model events",
     ],
